@@ -36,6 +36,10 @@ theorem parseCharsF_eq (o : ParseOptions) (cs : List Char) (bad : Bool) :
   | error e => rfl
   | ok r => rfl
 
+def errOf {α : Type} : Except PErr α → Option PErr
+  | .error e => some e
+  | .ok _ => none
+
 def isOk {α : Type} : Except PErr α → Bool
   | .ok _ => true
   | .error _ => false
